@@ -134,11 +134,49 @@ Definition mon_end (m : mstate) (po : obs) (n p : N) : mstate :=
     end
   else m.
 
+Fixpoint spec_accept (e : gmap N (Z * N)) (b : list op) : list op :=
+  match b with
+  | [] => []
+  | o :: r =>
+      let sup := match e !! o_key o with
+                 | None => true
+                 | Some (v, l) => if (o_ver o =? v)%Z then l <? o_lh o else (v <? o_ver o)%Z
+                 end in
+      if sup then o :: spec_accept (<[o_key o := (o_ver o, o_lh o)]> e) r else spec_accept e r
+  end.
+
+Definition obs_digests (o : obs) (n : N) : gmap N (Z * N) :=
+  list_to_map (map (fun x => (o_key x, (o_ver x, o_lh x))) (obs_eng_ops o n)).
+
+
+(* does the storage fault hit this ingestion at its node? Decided by the resolution rule on the
+   observed pre-state: a commit fault hits a transaction that wrote something, a Set fault on key
+   k hits when an operation on k is accepted *)
+Definition gstep_batch (m_msgs : list (list op)) (po no : obs) (target : N) (g : gstep) : list op :=
+  match g with
+  | GInject _ _ b => b
+  | GDeliver i _ => default [] (m_msgs !! i)
+  | GRound i j late => if target =? j then obs_store po i else (if late then obs_store no j else obs_store po j)
+  end.
+Definition fault_hits_batch (f : fault) (po : obs) (b : list op) : bool :=
+  let acc := spec_accept (obs_digests po (f_node f)) b in
+  match f with
+  | FCommit _ => match acc with [] => false | _ => true end
+  | FSet _ k => existsb (fun o => o_key o =? k) acc
+  end.
+
 Definition mon_write (m : mstate) (po no : obs) (k : N) (del : bool) (v : N) : mstate :=
   if negb (ob_rc no =? 0) then m else
   match filter (fun r => (rn_ctr r =? obs_ctr po (rn_key r) + 1)%Z) (ob_nodes no) with
   | [r] => recv_add m (rn_key r) [Op k (rn_ctr r) (rn_key r) del (if del then 0 else v)]
   | _ => m
+  end.
+
+(* the node a DB.Set/Delete on node n is routed to, from the digest node n was observed to hold *)
+Definition obs_leaseholder (po : obs) (n k lease : N) (del : bool) : N :=
+  match obs_digests po n !! k with
+  | Some (_, l) => if del then l else if lease =? 0 then l else lease
+  | None => if del then n else if lease =? 0 then n else lease
   end.
 
 Definition mon_step (m : mstate) (po : obs) (s : step_t) (no : obs) : mstate :=
@@ -166,7 +204,8 @@ Definition mon_step (m : mstate) (po : obs) (s : step_t) (no : obs) : mstate :=
   | SFaulty fn g =>
       (* node fn's ingress transaction fails to commit if it accepted anything: it then received
          nothing; if it accepted nothing the batch was dominated and leaving it out changes no maximum *)
-      let radd (m : mstate) (n : N) (l : list op) := if n =? fn then m else recv_add m n l in
+      let radd (m : mstate) (n : N) (l : list op) :=
+        if (n =? f_node fn) && fault_hits_batch fn po l then m else recv_add m n l in
       match g with
       | GInject n _ b => if is_node po n then radd m n b else m
       | GDeliver i n =>
@@ -182,6 +221,13 @@ Definition mon_step (m : mstate) (po : obs) (s : step_t) (no : obs) : mstate :=
             end
           else m
       end
+  | SWriteCF n k lease del =>
+      (* not acknowledged (rc 3): nothing was created; the leaseholder's kv layer was reopened *)
+      let m1 := mon_write m po no k del 0 in
+      if ob_rc no =? 3 then
+        let lh := obs_leaseholder po n k lease del in
+        MS (ms_recv m1) (ms_msgs m1) (filter (fun kx => negb (kx.1.1 =? lh) = true) (ms_hw m1))
+      else m1
   | SFb _ | SFbAll | SSub _ _ _ | SStall _ _ => m
   end.
 
@@ -250,7 +296,7 @@ Definition obs0 (ns : list N) : obs := Obs 0 (map (fun n => RNode n 0 [] []) ns)
         any peers), 0: two nodes, no restart. *)
 Definition is_write (s : step_t) : bool := match s with SWrite _ _ _ _ | SDel _ _ => true | _ => false end.
 Definition is_recapply (s : step_t) : bool := match s with SRecEnd _ _ | SRecover _ _ => true | _ => false end.
-Definition is_restart (s : step_t) : bool := match s with SRestart _ => true | _ => false end.
+Definition is_restart (s : step_t) : bool := match s with SRestart _ | SWriteCF _ _ _ _ => true | _ => false end.
 
 Definition is_recend (s : step_t) : bool := match s with SRecEnd _ _ => true | _ => false end.
 Definition step_suffix (s : step_t) (other_leader : bool) : N :=
